@@ -872,6 +872,20 @@ def install(w):
     M['Condvar::wait_while'] = condvar_wait_while
     M['Condvar::notify_all'] = lambda ex, c, a: unit()
     M['Condvar::notify_one'] = lambda ex, c, a: unit()
+    # single-threaded barrier / lazy cell
+    M['Barrier::new'] = lambda ex, c, a: Opaque('Barrier', a[0])
+    M['Barrier::wait'] = lambda ex, c, a: Opaque('BarrierWaitResult')
+
+    def lazy_get_or_create(ex, c, a):
+        cell = deref(a[0])
+        if not isinstance(cell, MutexModel):
+            raise Unsupported('Lazy cell %r' % (cell,))
+        if cell.slot[0] is None:
+            cell.slot[0] = ex.call_value(a[1], [])
+        return Ref(cell.slot, 0)
+    M['Lazy::get_or_create'] = lazy_get_or_create
+    M['default:Lazy'] = lambda ex, ty: MutexModel(None)
+    M['<Lazy as Default>::default'] = lambda ex, c, a: MutexModel(None)
     M['Mutex::lock'] = mutex_lock
     M['RwLock::write'] = mutex_lock
     M['RwLock::read'] = mutex_lock
